@@ -413,7 +413,9 @@ class Store:
             alloc, comp, part = self.meta[key]
             fb = full_box(alloc)
             if len(pieces) == 1 and _is_single_atom(pieces[0].expr):
-                continue
+                own = self.vname(key, self.version.get(key, 0))
+                if own in deps_of(pieces[0].expr):
+                    continue     # unchanged since its last version
             v = self.version.get(key, 0) + 1
             self.version[key] = v
             name = self.vname(key, v)
